@@ -59,11 +59,19 @@ func payload(c *mon.C, class int) []byte {
 		return p
 	case 10:
 		return bytes.Repeat([]byte{0}, 33000)
+	case 12:
+		// the most compressible messages there are: one byte value, 1 MiB and more (DEFLATE's limit ratio of
+		// about 1030:1 is only approached from there on); three times in four a 300 KiB run, to keep the tier quick
+		n := 300*1024 + c.Rng.Intn(5000)
+		if c.Rng.Intn(4) == 0 {
+			n = 1<<20 + c.Rng.Intn(3<<19)
+		}
+		return bytes.Repeat([]byte{[]byte{0, 'a', 0xff}[c.Rng.Intn(3)]}, n)
 	}
 	return rnd(c.Rng.Intn(2000))
 }
 
-const nClasses = 12
+const nClasses = 13
 
 // hideReset hides the Reset method of a compressor.
 type hideReset struct{ c wsflate.Compressor }
